@@ -143,6 +143,7 @@ fn explore(cfg: &Cfg18, reference: Arc<(usize, u64)>, bound: usize, budget: u64,
     let runner = Runner::new(sched, config);
     let res = std::panic::catch_unwind(std::panic::AssertUnwindSafe(|| {
         runner.run(move || {
+            vsync::reset_worker_locals();
             let out = encode18(&cfg);
             let mut f = f2.lock().unwrap();
             match out {
